@@ -181,6 +181,9 @@ def judge(plan, segments, queries, fresh):
     fe = seg.get("log_counts", {}).get("FORMAT_ERROR", 0)
     if fe:
       st["probes"]["log_message_format_errors_swallowed_by_logging"] = fe
+    if seg.get("call_fired"):
+      st["faults_fired"]["call_fail"] = \
+          st["faults_fired"].get("call_fail", 0) + seg["call_fired"]
     if seg.get("alloc_fired"):
       st["faults_fired"]["alloc_fail"] = \
           st["faults_fired"].get("alloc_fail", 0) + seg["alloc_fired"]
